@@ -42,7 +42,8 @@ def sty(t):
 def schema(fcp):
     ss = []
     for s in fcp.structs:
-        fs = clist("{| fname := %s; fid := %s; fty := %s |}" % (cstr(f.name), cz(f.field_id), sty(f.type)) for f in s.fields)
+        fs = clist("{| fname := %s; fid := %s; fty := %s; funit := %s |}" % (
+            cstr(f.name), cz(f.field_id), sty(f.type), "None" if f.unit is None else f"(Some {cstr(f.unit)})") for f in s.fields)
         ss.append("{| sname := %s; sfields := %s |}" % (cstr(s.name), fs))
     es = []
     for e in fcp.enums:
@@ -200,3 +201,34 @@ def values_equal(fcp, t, a, b):
         return isinstance(a, dict) and isinstance(b, dict) and set(a) == set(b) and all(
             values_equal(fcp, f.type, a[f.name], b[f.name]) for f in s.fields)
     return type(a) is type(b) and a == b
+
+
+def xval(v):
+    if isinstance(v, bool):
+        return "XOther"
+    if isinstance(v, int):
+        return f"(XInt {cz(v)})"
+    if isinstance(v, str):
+        try:
+            return f"(XStr {cstr(v)})"
+        except TypeError:
+            return "XOther"
+    return "XOther"
+
+
+def xfields(d):
+    return clist(cpair(cstr(k), xval(v)) for k, v in d.items())
+
+
+def impl(im):
+    sigs = clist("{| sbname := %s; sbfields := %s |}" % (cstr(sb.name), xfields(sb.fields)) for sb in im.signals)
+    return "{| iname := %s; iprotocol := %s; itype := %s; ifields := %s; isignals := %s |}" % (
+        cstr(im.name), cstr(im.protocol), cstr(im.type), xfields(im.fields), sigs)
+
+
+def opiece(v):
+    """encoding.Value -> Corr.Layout.opiece"""
+    unit = "None" if v.unit is None else f"(Some {cstr(v.unit)})"
+    if not isinstance(v.extended_data, dict):
+        raise TypeError("opiece: extended_data is not a dict")
+    return cpair(cstr(v.name), sty(v.type), cz(v.bitstart), cz(v.bitlength), cstr(v.endianess), unit, xfields(v.extended_data))
